@@ -54,6 +54,10 @@ INVALID = {
     # the empty string lacks both placeholders
     "empty-second": (DEFAULT[0], ""),
     "empty-first": ("", DEFAULT[1]),
+    # doubled braces are literal braces, not placeholders: these patterns lack one
+    "escaped-mother": ("{{mother}} => {daughters}", DEFAULT[1]),
+    "escaped-daughters-second": (DEFAULT[0], "({mother} -> {{daughters}})"),
+    "escaped-both": ("{{mother}} -> {{daughters}}", DEFAULT[1]),
 }
 INV_KEYS = list(INVALID)
 
